@@ -70,6 +70,17 @@ def check_preserves(inp_html, out_html, what):
             return None
     if si != so:
         return '%s of %r changed elements/attributes/text (whitespace removed): %s -> %s (output %r)' % (what, inp_html, json.dumps(si), json.dumps(so), out_html)
+    # comments and entity / character references survive verbatim, in order (both are kept as text blocks by the parser)
+    def all_text(e):
+        from AdvancedHTMLParser.Tags import AdvancedTag
+        return ''.join(all_text(b) if isinstance(b, AdvancedTag) else b for b in e.blocks)
+    ti, to = all_text(ri), all_text(ro)
+    ci, co = re.findall(r'<!--.*?-->', ti, re.S), re.findall(r'<!--.*?-->', to, re.S)
+    if ci != co:
+        return '%s of %r changed the comments: %r -> %r' % (what, inp_html, ci, co)
+    fi, fo = re.findall(r'&#?[A-Za-z0-9]+;', ti), re.findall(r'&#?[A-Za-z0-9]+;', to)
+    if fi != fo:
+        return '%s of %r changed the entity / character references: %r -> %r' % (what, inp_html, fi, fo)
     a, b = preserved(ri, False), preserved(ro, True)
     if len(a) != len(b):
         return '%s of %r changed the preserved elements' % (what, inp_html)
